@@ -17,11 +17,11 @@ type simReq struct {
 }
 
 type sim struct {
-	quota, win, size     int64
-	now, widx, counter   int64
-	rollDue              int64
-	heap                 []int
-	reqs                 []simReq
+	quota, win, size   int64
+	now, widx, counter int64
+	rollDue            int64
+	heap               []int
+	reqs               []simReq
 }
 
 func (s *sim) update() {
@@ -310,15 +310,15 @@ func (s *sim) clone() *sim {
 
 // enumerate emits EVERY schedule of exactly `depth` steps over the step alphabet
 // {enq p=0, enq p=1 (at most maxReqs requests, ttl 1500), park r, roll (when due), expire r (when due),
-// tick to the window end} for quota 1, window 1000, queue size 2 — all interleavings of enqueuers,
+// tick to the window end} for the given quota, window 1000, queue size 2 — all interleavings of enqueuers,
 // roll-over and TTL timers in this small scope (shorter schedules are prefixes of the emitted ones).
-func enumerate(depth, maxReqs int, emit func(proto.Case)) int {
+func enumerate(tag string, quota int64, depth, maxReqs int, emit func(proto.Case)) int {
 	n := 0
 	var rec func(s *sim, ops []string, d int)
 	rec = func(s *sim, ops []string, d int) {
 		if d == 0 {
 			n++
-			emit(proto.Case{ID: fmt.Sprintf("x%d", n), Ops: ops})
+			emit(proto.Case{ID: fmt.Sprintf("%s%d", tag, n), Ops: ops})
 			return
 		}
 		try := func(f func(w *walk)) {
@@ -355,24 +355,26 @@ func enumerate(depth, maxReqs int, emit func(proto.Case)) int {
 		}
 		try(func(w *walk) { w.tick((w.s.now/w.s.win+1)*w.s.win - w.s.now) })
 	}
-	s := &sim{quota: 1, win: 1000, size: 2, now: 5000, widx: 5, rollDue: 6000}
-	rec(s, []string{"cfg quota=1 win=1000 size=2 t0=5000"}, depth)
+	s := &sim{quota: quota, win: 1000, size: 2, now: 5000, widx: 5, rollDue: 6000}
+	rec(s, []string{fmt.Sprintf("cfg quota=%d win=1000 size=2 t0=5000", quota)}, depth)
 	return n
 }
 
 func gen(r *prng.R, f proto.Flags, emit func(proto.Case)) {
 	n, maxReqs, maxOps := 3000, 9, 50
 	if f.Tier == "thorough" {
-		n, maxReqs, maxOps = 60000, 12, 80
+		n, maxReqs, maxOps = 40000, 12, 80
 	}
 	n *= f.Budget
 	for i, ops := range malformed {
 		emit(proto.Case{ID: fmt.Sprintf("m%d", i), Ops: ops})
 	}
 	if f.Tier == "thorough" {
-		enumerate(8, 3, emit)
+		enumerate("x", 1, 9, 3, emit)
+		enumerate("y", 2, 9, 4, emit)
 	} else {
-		enumerate(5, 3, emit)
+		enumerate("x", 1, 6, 3, emit)
+		enumerate("y", 2, 6, 4, emit)
 	}
 	for k := 0; k < n; k++ {
 		rr := r.Fork()
